@@ -9,6 +9,8 @@ import (
 	"math"
 	"net/http"
 	"strings"
+	"sync"
+	"sync/atomic"
 	"testing"
 	"testing/synctest"
 	"time"
@@ -49,6 +51,28 @@ type cScript struct {
 	// CancelInWait: cancel the context in the middle of the wait that follows attempt index (key).
 	CancelInWait map[int]bool `json:"cancel_in_wait,omitempty"`
 	CustomValidator bool    `json:"custom_validator,omitempty"`
+	// Deadline: the request context ends through a (virtual) deadline instead of cancel();
+	// every "cancel" action of the script then waits until the deadline has passed.
+	Deadline bool `json:"deadline,omitempty"`
+}
+
+// blockBody is a response body that never delivers anything until it is closed: a stream
+// that stays open. Reading it to the end blocks (durably, inside a bubble).
+type blockBody struct {
+	ch    chan struct{}
+	once  sync.Once
+	reads atomic.Int32
+}
+
+func (b *blockBody) Read(p []byte) (int, error) {
+	b.reads.Add(1)
+	<-b.ch
+	return 0, io.EOF
+}
+
+func (b *blockBody) Close() error {
+	b.once.Do(func() { close(b.ch) })
+	return nil
 }
 
 const cBodyText = "request-body-0123456789"
@@ -100,6 +124,7 @@ type cObs struct {
 	ValErrs  map[int]error
 	CtxErrAtEnd error
 	OverScript bool
+	Runaway    bool
 }
 
 type noGetReader struct{ r io.Reader }
@@ -115,9 +140,23 @@ func runClient(t *testing.T, sc *cScript) (obs *cObs) {
 		}
 	}()
 	synctest.Test(t, func(t *testing.T) {
-		ctx, cancel := context.WithCancel(context.Background())
-		defer cancel()
+		ctx, cancelFn := context.WithCancel(context.Background())
 		base := time.Now()
+		cancel := cancelFn
+		if sc.Deadline {
+			// far enough for every scripted wait (capScript bounds them by 100 years), and before
+			// the end of the bubble's clock
+			dl := base.Add(150 * 365 * 24 * time.Hour)
+			var c2 context.CancelFunc
+			ctx, c2 = context.WithDeadline(ctx, dl)
+			defer c2()
+			cancel = func() {
+				if d := time.Until(dl); d >= 0 {
+					time.Sleep(d + 1)
+				}
+			}
+		}
+		defer cancelFn()
 		var body io.Reader
 		switch {
 		case sc.Body == "nil":
@@ -198,7 +237,7 @@ func runClient(t *testing.T, sc *cScript) (obs *cObs) {
 					}
 				}
 				return &http.Response{Status: http.StatusText(status), StatusCode: status, Proto: "HTTP/1.1", ProtoMajor: 1, ProtoMinor: 1,
-					Header: h, Body: io.NopCloser(strings.NewReader("rejected")), Request: r, ContentLength: -1}, nil
+					Header: h, Body: &blockBody{ch: make(chan struct{})}, Request: r, ContentLength: -1}, nil
 			}
 			cr := &mon.ChunkReader{Data: sp.Stream, Cuts: sp.Cuts}
 			if sp.ByteReads {
@@ -243,6 +282,11 @@ func runClient(t *testing.T, sc *cScript) (obs *cObs) {
 		retryIdx := 0
 		cl.OnRetry = func(err error, d time.Duration) {
 			obs.Retries = append(obs.Retries, cRetryObs{Err: err, D: d, VTime: time.Since(base)})
+			if len(obs.Retries) > len(sc.Attempts)+8 {
+				// step bound: more retries than the script has attempts cannot be legitimate; end the run
+				obs.Runaway = true
+				cancelFn()
+			}
 			if sc.CancelInWait[attempt] {
 				go func() {
 					time.Sleep(d / 2)
@@ -351,8 +395,15 @@ func judgeClient(sc *cScript, obs *cObs, prop string) (out []jv) {
 	if obs.Panic != "" {
 		return []jv{jvf([]string{"panic_or_deadlock"}, "client scenario panicked / deadlocked: %s", obs.Panic)}
 	}
+	if obs.Runaway {
+		return []jv{jvf([]string{"connect_runaway"}, "Connect kept retrying (%d OnRetry calls for a script of %d attempts, %d requests sent) and had to be stopped by the step bound", len(obs.Retries), len(sc.Attempts), len(obs.Attempts))}
+	}
 	if sc.CancelBefore {
-		if obs.Ret != context.Canceled {
+		wantCtx := error(context.Canceled)
+		if sc.Deadline {
+			wantCtx = context.DeadlineExceeded
+		}
+		if obs.Ret != wantCtx {
 			out = append(out, jvf([]string{"ctx_error_not_returned"}, "context cancelled before Connect but it returned %v", obs.Ret))
 		}
 		if len(obs.Attempts) > 1 {
@@ -601,7 +652,11 @@ func judgeClient(sc *cScript, obs *cObs, prop string) (out []jv) {
 	isCE := errors.As(obs.Ret, &ce)
 	switch result {
 	case "ctx":
-		if obs.Ret != context.Canceled {
+		wantCtx := error(context.Canceled)
+		if sc.Deadline {
+			wantCtx = context.DeadlineExceeded
+		}
+		if obs.Ret != wantCtx {
 			tags := []string{"ctx_error_not_returned"}
 			if errors.Is(obs.Ret, sse.ErrUnexpectedEOF) {
 				tags = append(tags, "cancel_reported_as_unexpected_eof")
